@@ -2753,7 +2753,9 @@ impl Lexer<'_> {
         // of lexing possibly escaped text in a string expression
         let mut lit_start_idx = self.buffer.next_string_literal_start();
         let mut lit_end_idx = lit_start_idx;
-        let mut last_lit_end_byte_offset = self.cur_byte_offset();
+        // The caller may have already consumed the first character(s) of the token,
+        // so the first literal section starts at the token start, not at the cursor
+        let mut last_lit_end_byte_offset = self.cur_token_byte_offset;
 
         while let Some(c) = self.cursor.peek() {
             match c {
@@ -2811,20 +2813,27 @@ impl Lexer<'_> {
                         // Quoted char
 
                         // First, store the literal section before the escape percent
-                        let (new_start, new_end) =
+                        let (new_start, _) =
                             self.add_string_literal_from_src(last_lit_end_byte_offset, None);
                         lit_start_idx = min(lit_start_idx, new_start);
-                        lit_end_idx = new_end;
 
                         // Now advance the cursor past the percent
                         self.cursor.advance();
 
-                        // And update the last byte offset - this will ensure that the
-                        // following escaped char will be included in the next literal section
-                        last_lit_end_byte_offset = self.cur_byte_offset();
+                        let quoted_char_byte_offset = self.cur_byte_offset();
 
-                        // Finally, advance the cursor past the quoted char
+                        // Advance the cursor past the quoted char
                         self.cursor.advance();
+
+                        // And store the quoted char itself right away. This way the literal
+                        // is never empty, even if the quoted char is the first one in the token
+                        // (empty literal means "no payload needed")
+                        let (_, new_end) =
+                            self.add_string_literal_from_src(quoted_char_byte_offset, None);
+                        lit_end_idx = new_end;
+
+                        // Finally, update the last byte offset
+                        last_lit_end_byte_offset = self.cur_byte_offset();
                         continue;
                     }
 
@@ -3261,7 +3270,9 @@ impl Lexer<'_> {
         // of lexing possibly escaped text in a string expression
         let mut lit_start_idx = self.buffer.next_string_literal_start();
         let mut lit_end_idx = lit_start_idx;
-        let mut last_lit_end_byte_offset = self.cur_byte_offset();
+        // The caller may have already consumed the first character(s) of the token,
+        // so the first literal section starts at the token start, not at the cursor
+        let mut last_lit_end_byte_offset = self.cur_token_byte_offset;
 
         // Now lex the string
         while let Some(c) = self.cursor.peek() {
